@@ -171,6 +171,8 @@ fn dnnf_query_line(rng: &mut Rng, maxvars: usize) -> String {
             })
             .collect()
     };
+    // a CNF without variables has nothing to condition on: use a one-clause formula instead
+    let raw: RawCnf = if to_cnf(&raw).num_vars() == 0 { vec![vec![(0, rng.coin()), (1, rng.coin())]] } else { raw };
     let cnf = to_cnf(&raw);
     let n = cnf.num_vars();
     let order = rng.perm(n);
@@ -236,6 +238,37 @@ fn dnnf_query_line(rng: &mut Rng, maxvars: usize) -> String {
     format!("{} => {}", head, r.unwrap_or_else(|e| e))
 }
 
+const DERIVED: usize = 1_000_000;
+
+/// the diagram a target index refers to, rebuilt in a fresh builder: pool entries directly,
+/// derived ones by replaying only the smoothing / conditioning queries they come from
+fn rebuild_bdd<'a>(
+    b: &'a RobddBuilder<'a, AllIteTable<BddPtr<'a>>>,
+    pool: &[BddPtr<'a>],
+    earlier: &[(usize, Q)],
+    target: usize,
+    n: usize,
+) -> BddPtr<'a> {
+    if target < DERIVED {
+        return pool[target];
+    }
+    let mut k = 0usize;
+    for (pos, (i, q)) in earlier.iter().enumerate() {
+        if matches!(q, Q::S | Q::C(..)) {
+            if k == target - DERIVED {
+                let src = rebuild_bdd(b, pool, &earlier[..pos], *i, n);
+                return match q {
+                    Q::S => b.smooth(src, n),
+                    Q::C(v, val) => b.condition(src, VarLabel::new_usize(*v), *val),
+                    _ => unreachable!(),
+                };
+            }
+            k += 1;
+        }
+    }
+    panic!("derived target not found")
+}
+
 pub fn query_line(rng: &mut Rng, maxvars: usize, maxops: usize) -> String {
     if rng.chance(1, 4) {
         return dnnf_query_line(rng, maxvars);
@@ -264,9 +297,12 @@ pub fn query_line(rng: &mut Rng, maxvars: usize, maxops: usize) -> String {
             Err(_) => vec![0],
         }
     };
+    // results of smoothing and conditioning join the diagrams later queries may address
+    // (index DERIVED + k = result of the k-th smoothing / conditioning query)
+    let mut nderived = 0usize;
     let qs: Vec<(usize, Q)> = (0..nq)
         .map(|_| {
-            let i = *rng.pick(&big);
+            let i = if nderived > 0 && rng.chance(1, 2) { DERIVED + rng.below(nderived as u64) as usize } else { *rng.pick(&big) };
             let q = match rng.below(8) {
                 0 => Q::W((0..n).map(|_| (rng.below(5) as u128, rng.below(5) as u128)).collect()),
                 1 => Q::R((0..n).map(|_| rng.below(9)).collect()),
@@ -292,6 +328,9 @@ pub fn query_line(rng: &mut Rng, maxvars: usize, maxops: usize) -> String {
                 6 => Q::S,
                 _ => Q::C(rng.below(n as u64) as usize, rng.coin()),
             };
+            if matches!(q, Q::S | Q::C(..)) {
+                nderived += 1;
+            }
             (i, q)
         })
         .collect();
@@ -308,18 +347,35 @@ pub fn query_line(rng: &mut Rng, maxvars: usize, maxops: usize) -> String {
         let pool = exec(&b, &prog.ops);
         let mut ans = Vec::new();
         let mut clear = String::new();
+        let mut derived: Vec<BddPtr> = Vec::new();
+        let mut trees: Vec<String> = Vec::new();
         for (i, q) in qs.iter() {
-            ans.push(answer(&b, pool[*i], n, q));
-            clear.push(if all_clear(&pool) { '1' } else { '0' });
+            let d = if *i >= DERIVED { derived[*i - DERIVED] } else { pool[*i] };
+            trees.push(bdd_raw_string(d));
+            match q {
+                Q::S => {
+                    let r = b.smooth(d, n);
+                    derived.push(r);
+                    ans.push(bdd_raw_string(r));
+                }
+                Q::C(v, val) => {
+                    let r = b.condition(d, VarLabel::new_usize(*v), *val);
+                    derived.push(r);
+                    ans.push(bdd_raw_string(r));
+                }
+                _ => ans.push(answer(&b, d, n, q)),
+            }
+            let all: Vec<BddPtr> = pool.iter().chain(derived.iter()).cloned().collect();
+            clear.push(if all_clear(&all) { '1' } else { '0' });
         }
-        // each query alone on a freshly built copy
+        // each query alone on a freshly built copy of its argument
         let mut fresh = Vec::new();
-        for (i, q) in qs.iter() {
+        for (k, (i, q)) in qs.iter().enumerate() {
             let fb = RobddBuilder::<AllIteTable<BddPtr>>::new(mk_order(&prog.order));
             let fpool = exec(&fb, &prog.ops);
-            fresh.push(answer(&fb, fpool[*i], n, q));
+            let d = rebuild_bdd(&fb, &fpool, &qs[..k], *i, n);
+            fresh.push(answer(&fb, d, n, q));
         }
-        let trees: Vec<String> = qs.iter().map(|(i, _)| bdd_raw_string(pool[*i])).collect();
         let _ = b.true_ptr();
         format!("ans={} fresh={} clear={} trees={}", ans.join("|"), fresh.join("|"), clear, trees.join("|"))
     });
